@@ -5,6 +5,7 @@ import (
 	"encoding/binary"
 	"encoding/json"
 	"fmt"
+	mrand "math/rand"
 	"sort"
 	"strings"
 	"testing/fstest"
@@ -899,11 +900,98 @@ func c12Gen(c *Ctx) {
 		}
 		c12Eval(c, cs)
 	}
+	c12LargeValues(c, u)
+}
+
+// c12LargeValues: "values of any sizes".  The values of the histories above end at a few hundred bytes; a dbx is ten
+// to a hundred times that.  Short histories (3..8 operations and the reads added after every write) over one ordinary
+// and one secure-boot variable whose values are LARGE: raw values of 2^k-5 .. 2^k+1 bytes around k = 12, 13 and 16 (value
+// and attributes + value on either side of the usual buffer sizes), some sizes in between and 70 000 bytes; databases
+// of 84..86, 170..172, 200, 1365 and 1500 SHA-256 entries (4 KiB, 8 KiB, 64 KiB and beyond) - written plainly and as
+// signed updates, large after small, small after large, large after a different large one of the same length, every
+// write followed by a read.  The register oracle and the Lean store model judge them like every other history.
+func c12LargeValues(c *Ctx, u *c09Universe) {
+	sub := &Ctx{Rng: mrand.New(mrand.NewSource(c.Seed*67867967 + 31 + int64(c.Shard)*1000003)), Thorough: c.Thorough}
+	rng := sub.Rng
+	var rawSizes []int
+	for _, k := range []uint{12, 13, 16} {
+		for d := -5; d <= 1; d++ {
+			rawSizes = append(rawSizes, 1<<k+d)
+		}
+	}
+	rawSizes = append(rawSizes, 5000, 20000, 70000)
+	dbCounts := []int{84, 85, 86, 170, 171, 172, 200, 1365, 1500}
+	bigDb := func(n int) string {
+		var sigs [][2][]byte
+		for j := 0; j < n; j++ {
+			sigs = append(sigs, [2][]byte{u.owners[j%2], randBytes(sub, 32)})
+		}
+		if n > 100 && rng.Intn(2) == 0 { // two lists
+			return hx(append(encodeList(tSHA256, nil, 48, sigs[:n/2]), encodeList(tSHA256, nil, 48, sigs[n/2:])...))
+		}
+		return hx(encodeList(tSHA256, nil, 48, sigs))
+	}
+	smallRaw := []string{"-", "01", hx(randBytes(sub, 40))}
+	smallDb := []string{"-", hx(encodeList(tSHA256, nil, 48, [][2][]byte{{u.owners[0], u.data[0]}}))}
+	for i := 0; i < c.N(20, 600) && c.NFailures() < 6; i++ {
+		ord := []string{"OrdA", "Ord0", "OrdB"}[i%3]
+		sb := []string{"dbx", "db", "KEK", "PK"}[i%4]
+		// sizes rotate so that the quick tier sees every class
+		rawN := rawSizes[i%len(rawSizes)]
+		dbN := dbCounts[i%len(dbCounts)]
+		if c.Quick() && (rawN > 66000 || dbN > 1400) && i%2 == 1 {
+			rawN, dbN = rawSizes[(i*7)%len(rawSizes)], dbCounts[(i*5)%len(dbCounts)%7]
+		}
+		var ops []interface{}
+		w := func(v, val string) {
+			ops = append(ops, map[string]interface{}{"k": "W", "var": v, "value": val}, map[string]interface{}{"k": "G", "var": v})
+		}
+		sgn := func(v, val string) {
+			op := map[string]interface{}{"k": "S", "var": v, "value": val, "key": 0}
+			if rng.Intn(3) == 0 {
+				op["how"], op["prep"] = []string{"prepared", "bytes", "wrapped"}[rng.Intn(3)], rng.Intn(3)
+			}
+			ops = append(ops, op, map[string]interface{}{"k": "G", "var": v})
+		}
+		pre := map[string]interface{}{}
+		bigRaw, bigD := hx(randBytes(sub, rawN)), bigDb(dbN)
+		switch i % 5 {
+		case 0: // large into an empty store
+			w(ord, bigRaw)
+			w(sb, bigD)
+		case 1: // small, then large, then small again
+			w(ord, smallRaw[rng.Intn(len(smallRaw))])
+			w(ord, bigRaw)
+			w(sb, smallDb[rng.Intn(len(smallDb))])
+			w(sb, bigD)
+			w(ord, smallRaw[rng.Intn(len(smallRaw))])
+		case 2: // large, then another large value of the same length
+			w(ord, bigRaw)
+			w(ord, hx(randBytes(sub, rawN)))
+			w(sb, bigD)
+			w(sb, bigDb(dbN))
+		case 3: // signed updates with a large payload
+			sgn(sb, bigD)
+			w(ord, bigRaw)
+			sgn(sb, smallDb[rng.Intn(len(smallDb))])
+			if rng.Intn(2) == 0 {
+				sgn(ord, bigRaw)
+			}
+		default: // a pre-populated store, growing in steps
+			pre[sb] = smallDb[1]
+			w(sb, bigDb(dbCounts[rng.Intn(3)]))
+			w(sb, bigD)
+			w(ord, hx(randBytes(sub, rawSizes[rng.Intn(len(rawSizes)-1)])))
+			w(ord, bigRaw)
+		}
+		ops = append(ops, map[string]interface{}{"k": "G", "var": ord}, map[string]interface{}{"k": "G", "var": sb})
+		c12Eval(c, Case{"op": "store-history", "class": "large-values", "pre": pre, "ops": ops})
+	}
 }
 
 func init() {
 	register("C12", &PropDef{
-		Rule:   "histories of 2..10 (thorough ..30) generated operations (plus the reads added after them) over {PK, KEK, db, dbx, two ordinary variables, one ordinary variable declared with attribute mask 0, and the other well-known variables of package efivar}: plain writes, signed updates (RSA-2048) and reads, each operation describing its variable either with the package-level efivar definition or (in two histories out of three, mixed within the history) with a caller-built Efivar value of equal name, GUID (util.StringToGUID of the canonical text, or a copy of the GUID value) and attributes, reads then going through GetVar with that description; values that grow, shrink (to the empty database / empty value) and repeat (7 databases from empty to two lists with certificates and list types the decoder does not handle, 5 raw values from 0 to 300 bytes), and values that repeat in LENGTH but not in content (for every non-empty value a second one of exactly the same length; one write in four of a variable that holds such a value writes its same-length sibling and the variable is read immediately before and after: read / write of a different value of the same length / read on one store); signed updates are made either by Efivarfs.WriteSignedUpdate or (three in five) by the caller itself with signature.SignEFIVariable, whose returned value object is marshalled 0..2 times (Marshal and Bytes, as when it is saved or measured) before it is handed to WriteVar - as the object itself, as its SERIALISED BYTES in a plain byte-slice Marshallable (the content of an .auth file), or inside a Marshallable of the caller's own that passes Marshal / Bytes on (one in five each): for PK / KEK / db / dbx the store must hold the payload with the descriptor removed in all three forms - and is KEPT: in half of these histories the kept object is handed to WriteVar again (operation A), at once or after another value was written to the variable, and the variable must then hold the update's payload again; one signed update in about five goes to an ORDINARY variable, for which nothing is removed: a read must return an authentication descriptor (by extent) followed by exactly the payload, the same bytes on every read until the next write; the OTHER package-level variable definitions of efivar (SetupMode, SecureBoot, PKDefault / KEKDefault / dbDefault / dbxDefault, BootOrder / BootNext / BootCurrent, the eleven Loader* variables) are variables of the histories too: every history picks SetupMode or SecureBoot and one other definition, about one operation in four writes (plain or signed), reads or overlaps one of them around the writes of PK / KEK / db / dbx (values: the raw values and the one-byte values 0 / 1), one history in three starts from a store pre-populated with one of them, SetupMode / SecureBoot are also read through GetSetupMode / GetSecureBoot (true iff the first byte of the last value written is 1), and two histories out of three END WITH A READ OF EVERY VARIABLE of the history's universe (the seven above, SetupMode, SecureBoot, the history's other definition), written or not: a write to one variable changes no other variable and creates no other variable; OVERLAPPING WRITES (operation P, every second history): WriteVar of a variable is called with a value object whose Marshal parks - after, before or half way through writing its bytes - until another goroutine has run a complete WriteVar of ANOTHER variable of the history through the SAME store, then goes on (hand-over by channels, one goroutine runs at a time, deterministic); both variables are read afterwards and each must hold the value written to it, as when each call runs alone (for the Lean model the operation is the two writes); CASE-SENSITIVE NAMES: every second history also has a case variant of one of its variables under the same vendor GUID (DB / Db / dB beside db, pk beside PK, ORDA / ordA beside OrdA, SETUPMODE / setupMode beside SetupMode, ...; values of the kind its sibling holds) - another variable, a register of its own, ordinary as far as the store is concerned: in two thirds of these histories one of the two names is present first (in the pre-populated store, or written by the first operation), then the other is written for the first time and both are read; one later operation in five is on one of the two, every write to one of them is followed by a read of both, and the final read of every variable includes both; empty and pre-populated stores (With(...)); run in a worker process because a write may end the process on an unrepaired tree. Every read is compared with the register oracle and the Lean store model. Held results: every read operation also reads the variable through the same store with a caller-supplied Unmarshallable that keeps the bytes it is handed (no copy); the held value must be the value of the most recent write when the read returns and must still be that value after every later operation of the history (reads and writes of other variables, and of the same variable after a new write). Non-trivial: at least two operations; distinct = distinct histories.",
+		Rule:   "histories of 2..10 (thorough ..30) generated operations (plus the reads added after them) over {PK, KEK, db, dbx, two ordinary variables, one ordinary variable declared with attribute mask 0, and the other well-known variables of package efivar}: plain writes, signed updates (RSA-2048) and reads, each operation describing its variable either with the package-level efivar definition or (in two histories out of three, mixed within the history) with a caller-built Efivar value of equal name, GUID (util.StringToGUID of the canonical text, or a copy of the GUID value) and attributes, reads then going through GetVar with that description; values that grow, shrink (to the empty database / empty value) and repeat (7 databases from empty to two lists with certificates and list types the decoder does not handle, 5 raw values from 0 to 300 bytes), and values that repeat in LENGTH but not in content (for every non-empty value a second one of exactly the same length; one write in four of a variable that holds such a value writes its same-length sibling and the variable is read immediately before and after: read / write of a different value of the same length / read on one store); signed updates are made either by Efivarfs.WriteSignedUpdate or (three in five) by the caller itself with signature.SignEFIVariable, whose returned value object is marshalled 0..2 times (Marshal and Bytes, as when it is saved or measured) before it is handed to WriteVar - as the object itself, as its SERIALISED BYTES in a plain byte-slice Marshallable (the content of an .auth file), or inside a Marshallable of the caller's own that passes Marshal / Bytes on (one in five each): for PK / KEK / db / dbx the store must hold the payload with the descriptor removed in all three forms - and is KEPT: in half of these histories the kept object is handed to WriteVar again (operation A), at once or after another value was written to the variable, and the variable must then hold the update's payload again; one signed update in about five goes to an ORDINARY variable, for which nothing is removed: a read must return an authentication descriptor (by extent) followed by exactly the payload, the same bytes on every read until the next write; the OTHER package-level variable definitions of efivar (SetupMode, SecureBoot, PKDefault / KEKDefault / dbDefault / dbxDefault, BootOrder / BootNext / BootCurrent, the eleven Loader* variables) are variables of the histories too: every history picks SetupMode or SecureBoot and one other definition, about one operation in four writes (plain or signed), reads or overlaps one of them around the writes of PK / KEK / db / dbx (values: the raw values and the one-byte values 0 / 1), one history in three starts from a store pre-populated with one of them, SetupMode / SecureBoot are also read through GetSetupMode / GetSecureBoot (true iff the first byte of the last value written is 1), and two histories out of three END WITH A READ OF EVERY VARIABLE of the history's universe (the seven above, SetupMode, SecureBoot, the history's other definition), written or not: a write to one variable changes no other variable and creates no other variable; OVERLAPPING WRITES (operation P, every second history): WriteVar of a variable is called with a value object whose Marshal parks - after, before or half way through writing its bytes - until another goroutine has run a complete WriteVar of ANOTHER variable of the history through the SAME store, then goes on (hand-over by channels, one goroutine runs at a time, deterministic); both variables are read afterwards and each must hold the value written to it, as when each call runs alone (for the Lean model the operation is the two writes); CASE-SENSITIVE NAMES: every second history also has a case variant of one of its variables under the same vendor GUID (DB / Db / dB beside db, pk beside PK, ORDA / ordA beside OrdA, SETUPMODE / setupMode beside SetupMode, ...; values of the kind its sibling holds) - another variable, a register of its own, ordinary as far as the store is concerned: in two thirds of these histories one of the two names is present first (in the pre-populated store, or written by the first operation), then the other is written for the first time and both are read; one later operation in five is on one of the two, every write to one of them is followed by a read of both, and the final read of every variable includes both; LARGE VALUES (20 short histories, thorough 600, over one ordinary and one secure-boot variable): raw values of 2^k-5 .. 2^k+1 bytes for k = 12, 13, 16 (the value, and attributes + value, on either side of 4 KiB / 8 KiB / 64 KiB), 5000, 20 000 and 70 000 bytes, and databases of 84..86, 170..172, 200, 1365 and 1500 SHA-256 entries in one or two lists, written plainly and as signed updates (all three hand-over forms) - into an empty store, large after small and small after large, a different value of the same large size, growing in steps from a pre-populated store - every write followed by a read, the history ending with a read of both variables: what is read is, byte for byte, what was written last, whatever its size; empty and pre-populated stores (With(...)); run in a worker process because a write may end the process on an unrepaired tree. Every read is compared with the register oracle and the Lean store model. Held results: every read operation also reads the variable through the same store with a caller-supplied Unmarshallable that keeps the bytes it is handed (no copy); the held value must be the value of the most recent write when the read returns and must still be that value after every later operation of the history (reads and writes of other variables, and of the same variable after a new write). Non-trivial: at least two operations; distinct = distinct histories.",
 		Assume: []string{"variables without the APPEND_WRITE attribute (the property's register semantics)", "values of secure-boot variables are well-formed signature databases (any list type of ValidEFISignatureSchemes, including types the decoder does not handle; those are compared as bytes)"},
 		Eval:   c12Eval, Gen: c12Gen,
 	})
